@@ -292,6 +292,8 @@ def run(chk):
                 break
             chk.count('model_layout_same')
     old_versions(chk, exe, rng, 3 if quick else 40)
+    if not chk.violations:
+        signed_zero_terms(chk, exe, rng)
     chk.rule = ('random vnacal_t: 1..3 calibrations of all 8 types, square and rectangular, m and a/b, 1..3 frequencies, names needing YAML quoting, global and per-calibration '
                 'property trees, optionally a deleted slot; fprecision/dprecision in 1..40 and maximum (17 digits and more must round-trip bit-exactly); also under the `#VNACAL 3.0` header and E12 data in the `#VNACAL 2.0` layout; '
                 'distinct = (types and shapes, precisions, deleted slot, header)')
@@ -344,6 +346,43 @@ def verify_file(chk, exe, c, A, Amax):
                         return 'terms', 'calibration %d frequency %d %s: written %r, the maximum-precision file has %r (dprecision %d)' % (jj, f, key, u, v, c['dp'])
     chk.count('file_read_ok')
     return None
+
+
+def signed_zero_terms(chk, exe, rng):
+    """bit-exact means the sign of a zero too: a file at maximal precision whose error terms and z0 have zero real or imaginary parts of
+    either sign (what vnacal_save writes for such values) loads and saves again to the same text"""
+    import re
+    for typ in ('T8', 'E12', 'U16'):
+        n = 2 if typ == 'U16' else 1
+        sc = calsim.Scenario(rng, typ, n, n, 2).begin()
+        sc.solt().solve().add_calibration(b'c')
+        L = sc.lines + ['cal set_dprecision 0 1000', 'cal set_fprecision 0 1000', 'cal savestr 0', 'cal free 0']
+        out, rc, err = vlib.run_lines(exe, L)
+        if rc != 0 or len(out) != len(L) or not out[-2].startswith('ok'):
+            chk.violation('signed-zero-setup', 'cannot save a %s calibration: %s' % (typ, err[-500:]), L)
+            return
+        txt = bytes.fromhex(out[-2].split()[-1][1:]).decode()
+        zeros = ['-0x0p+0 +0x1p-3j', '-0x0p+0 -0x1p-1j', '+0x0p+0 -0x0p+0j', '-0x0p+0 -0x0p+0j', '+0x1.8p-2 -0x0p+0j', '-0x0p+0 +0x0p+0j']
+        k = [0]
+
+        def sub(m):
+            k[0] += 1
+            return m.group(1) + zeros[k[0] % len(zeros)] if k[0] % 2 else m.group(0)
+        txt2 = re.sub(r'(?m)^(\s+- )[-+]0x\S+ [-+]0x\S+j$', sub, txt)
+        txt2 = re.sub(r'(?m)^(\s+z0: )\S+ \S+j$', lambda m: m.group(1) + '+0x1.9p+5 -0x0p+0j', txt2)
+        L2 = ['cal loadstr 1 x' + txt2.encode().hex(), 'cal set_dprecision 1 1000', 'cal set_fprecision 1 1000', 'cal savestr 1', 'cal free 1', 'cal live']
+        out2, rc, err = vlib.run_lines(exe, L2)
+        chk.evaluations += 1
+        if rc != 0 or len(out2) != len(L2) or not out2[0].startswith('ok') or not out2[3].startswith('ok'):
+            chk.violation('signed-zero-load', '%s: a maximal-precision file with signed zeros does not load / save: %s %s' % (typ, (out2 or ['?'])[0][:80], err[-500:]), L2)
+            return
+        txt3 = bytes.fromhex(out2[3].split()[-1][1:]).decode()
+        if txt3 != txt2:
+            d = [(a, b) for a, b in zip(txt2.split('\n'), txt3.split('\n')) if a != b]
+            chk.violation('signed-zero', '%s: at maximal precision load then save changes %d line(s) of the file, e.g. `%s` -> `%s` (error terms are not bit-exact)' % (
+                typ, len(d), d[0][0].strip() if d else '?', d[0][1].strip() if d else '?'), L2)
+            return
+        chk.count('signed_zero_files_ok')
 
 
 def old_versions(chk, exe, rng, count):
